@@ -130,6 +130,22 @@ def check_structure(chk, m, L, N, I):
                         elif cmp_:
                             want = paths.mkptr(root, -next_o)
                             ok = any(ts.val == want for kk, ts in tail_stores)
+                            # ... unless the slot is the list's head slot: the victim was the only node, the list is now empty and its
+                            # tail is not read before the next insertion sets it (any value will do, NULL included)
+                            at_head = False
+                            for c, taken, inst in p.conds:
+                                cc = strip_casts(c)
+                                if cc[0] == "icmp" and cc[1] in ("eq", "ne") and (cc[1] == "eq") == bool(taken):
+                                    a_, b_ = strip_casts(cc[2]), strip_casts(cc[3])
+                                    for x_, y_ in ((a_, b_), (b_, a_)):
+                                        if x_ == strip_casts(root) and y_[0] in ("p", "ld", "arg") and ptr_parts(y_)[1:] == (head_o, ()) \
+                                                and ptr_parts(y_)[0][0] in ("ld", "arg"):
+                                            at_head = True
+                            if at_head and not ok:
+                                chk.ob("N3.tail-on-removal", pid, True,
+                                       "the victim is the tail and is unlinked from the head slot: it was the only node, the list is now empty "
+                                       "and its tail is not read before the next insertion sets it", e.inst.loc, fn.name)
+                                continue
                             chk.ob("N3.tail-on-removal", pid, ok,
                                    "the victim is the tail: tail := the node containing the slot (containerof(prevnext))", e.inst.loc, fn.name)
                         else:
